@@ -31,6 +31,27 @@ pub fn run(ctx: &Ctx, rep: &mut Report) {
             }
             Err(e) => rep.inconclusive(&e),
         },
+        "tb4-build" => {
+            // wv tb4-build [--mode "R,R"]: builds the 4-man tables into /verif/cache (setup only)
+            use crate::oracle::rules::Kind;
+            use crate::oracle::tb4::{cache_path, Table4, CLASSES};
+            let _ = std::fs::create_dir_all("/verif/cache");
+            let tb3 = crate::oracle::tb::Tablebases::build(&[Kind::Q, Kind::R, Kind::B, Kind::N]);
+            for (w, b) in CLASSES {
+                if !ctx.mode.is_empty() && ctx.mode != format!("{},{}", w.letter(), b.letter()) {
+                    continue;
+                }
+                if std::path::Path::new(&cache_path(w, b)).exists() && ctx.tier != "thorough" {
+                    println!("tb4 K{}vK{} cached", w.letter(), b.letter());
+                    continue;
+                }
+                let t = std::time::Instant::now();
+                let tb = Table4::build(w, b, &tb3, 16);
+                let mx = tb.max_win();
+                tb.save(&cache_path(w, b)).expect("save tb4");
+                println!("tb4 K{}vK{} built in {:?}, longest win {} plies", w.letter(), b.letter(), t.elapsed(), mx);
+            }
+        }
         "tb-time" => {
             use crate::oracle::rules::Kind;
             let t = std::time::Instant::now();
